@@ -319,6 +319,8 @@ void janet_async_start(JanetStream *stream, JanetAsyncMode mode, JanetEVCallback
     int write_busy = (mode & JANET_ASYNC_LISTEN_WRITE) && janet_async_slot_busy(stream->write_fiber);
     if (read_busy || write_busy) {
         janet_free(state);
+        /* A timeout may already have been armed for this wait: it must not outlive it */
+        janet_vm.root_fiber->sched_id++;
         janet_panicf("another fiber is already waiting to %s this stream", read_busy ? "read from" : "write to");
     }
     janet_async_start_fiber(janet_vm.root_fiber, stream, mode, callback, state);
